@@ -319,8 +319,8 @@ def _float_kinded(e: ast.AST, f: Func, w, depth: int = 4) -> Tuple[bool, str]:
             return True, ''
         if fs in ('overlap', 'reduce', 'reduce_sum'):
             return True, ''
-        h = f.module.functions.get(fs)
-        if h is not None and depth > 0 and not h.node.decorator_list:
+        h = _helper_of(f, fs)
+        if h is not None and depth > 0:
             return _helper_kinded(h, _float_kinded, depth - 1)
         return False, f'call `{fs}` is not known to return a float'
     if isinstance(e, ast.Subscript):
@@ -351,8 +351,8 @@ def _bool_kinded(e: ast.AST, f: Func, w, depth: int = 4) -> Tuple[bool, str]:
                   'reduce_any', 'reduce_all') or fs.endswith('.contains') or \
                 fs.endswith('.issubset'):
             return True, ''
-        h = f.module.functions.get(fs)
-        if h is not None and depth > 0 and not h.node.decorator_list:
+        h = _helper_of(f, fs)
+        if h is not None and depth > 0:
             return _helper_kinded(h, _bool_kinded, depth - 1)
         return False, f'call `{fs}` is not known to return a bool'
     if isinstance(e, ast.Name) and depth > 0:
@@ -360,6 +360,22 @@ def _bool_kinded(e: ast.AST, f: Func, w, depth: int = 4) -> Tuple[bool, str]:
         if d is not None and d[0] == 'value':
             return _bool_kinded(d[1], f, w, depth - 1)
     return False, f'`{src(e)[:40]}` is not bool-kinded'
+
+
+_KIND_INDEX: List[Optional[RepoIndex]] = [None]
+
+
+def _helper_of(f: Func, name: str) -> Optional[Func]:
+    """the repository function a result is delegated to: a module-local helper, an imported
+    one, or another registered component (FunctionRegistry.register returns its argument)"""
+    from ..inline import opaque_decorators
+    h = f.module.functions.get(name)
+    if h is None and _KIND_INDEX[0] is not None and name.isidentifier():
+        r = _KIND_INDEX[0].resolve_name(f.module, name)
+        h = r if isinstance(r, Func) and r.cls is None else None
+    if h is None or opaque_decorators(h.node, registered=True):
+        return None
+    return h
 
 
 def _helper_kinded(h: Func, kinded, depth: int) -> Tuple[bool, str]:
@@ -378,6 +394,7 @@ def _helper_kinded(h: Func, kinded, depth: int) -> Tuple[bool, str]:
 
 
 def result_kinds(index: RepoIndex, rep, rule: str) -> None:
+    _KIND_INDEX[0] = index
     for role, kinded, what in (('reward', _float_kinded, 'a float'),
                                ('terminating', _bool_kinded, 'a bool')):
         reg = index.registry(role, 13 if role == 'reward' else 7)
